@@ -275,7 +275,7 @@ def rule_registry_frames(ctx, rid, rr):
 
     def gsf_stub(*a):
         count[0] += 1
-        return f"F#{count[0]}"
+        return roles.frame_token(m, f"F#{count[0]}")
     w.interp.stubs["get_stack_frame"] = Stub("get_stack_frame", gsf_stub)
     for nm in ("assert_is_instance", "assert_is_callable", "assert_can_bind"):
         w.interp.stubs[nm] = Stub(nm, lambda *a, **k: None)
@@ -292,7 +292,7 @@ def rule_registry_frames(ctx, rid, rr):
         w.interp.call(w.interp.getattr(reg, "add"), [x, store1], {})
         n_add = count[0]
         ent = reg.attrs.get("mapping", {}).get(x)
-        ok = n_add == 1 and isinstance(ent, Obj) and ent.attrs.get("stack_frame") == "F#1" and ent.attrs.get("value_store") is store1 \
+        ok = n_add == 1 and isinstance(ent, Obj) and roles.is_frame_token(ent.attrs.get("stack_frame"), "F#1") and ent.attrs.get("value_store") is store1 \
             and ent.attrs.get("is_source") is False
         ctx.ob(rid, "Registry.add/entry-frame", ok, loc(regc.methods["add"]),
                "evaluated: add captures the frame once and the entry stores it (with the store, not a source)" if ok else
@@ -300,8 +300,8 @@ def rule_registry_frames(ctx, rid, rr):
                f"store write is not attributed to the registry.add line")
         node = w.interp.call(w.interp.getattr(reg, "source"), [w.plan, store2], {})
         ent2 = reg.attrs.get("mapping", {}).get(node) if isinstance(node, Obj) else None
-        ok = count[0] == n_add + 1 and isinstance(node, Obj) and node.attrs.get("stack_frame") == f"F#{count[0]}" and isinstance(ent2, Obj) \
-            and ent2.attrs.get("stack_frame") == f"F#{count[0]}" and ent2.attrs.get("is_source") is True and ent2.attrs.get("value_store") is store2
+        ok = count[0] == n_add + 1 and isinstance(node, Obj) and roles.is_frame_token(node.attrs.get("stack_frame"), f"F#{count[0]}") and isinstance(ent2, Obj) \
+            and roles.is_frame_token(ent2.attrs.get("stack_frame"), f"F#{count[0]}") and ent2.attrs.get("is_source") is True and ent2.attrs.get("value_store") is store2
         ctx.ob(rid, "Registry.source/one-frame", ok, loc(regc.methods["source"]),
                "evaluated: source captures the frame once; the created node and its entry carry it" if ok else
                "evaluated: Registry.source does not give the source node and its entry the one frame captured at the registry.source line")
